@@ -12,10 +12,10 @@ from lemmas import life
 from lemmas.rv64 import UNITS, state_layout, rv64_linked, POOL, POOL_X, POOL_F
 
 def run_V3(ctx, case):
-    light = case.get('light', False); q = Q(120); mod = Module(ctx['ll']['rv64']); L = state_layout(mod); npaths = [0]; F = life.flagvals()
+    light = case.get('light', False); v2 = case.get('v2', False); q = Q(120); mod = Module(ctx['ll']['rv64']); L = state_layout(mod); npaths = [0]; F = life.flagvals()
     syms, text = rv64_linked(ctx['tag'] + '-v3-%d' % os.getpid())
     rr = [2 * i + ((case['rr'] >> i) & 1) for i in range(4)]; qm = [z3.BitVec('q%d' % (14 + i), 64) for i in range(2)]
-    tag = 'RV64 frame %s v1 readReg=%s' % ('light' if light else 'full', rr)
+    tag = 'RV64 frame %s %s readReg=%s' % ('light' if light else 'full', 'v2 (software AES)' if v2 else 'v1', rr)
     dso32 = z3.BitVec('datasetOffset32', 32); dso = z3.ZeroExt(32, dso32) if light else z3.BitVec('datasetOffset', 64); base_pc = [z3.ULE(dso, P.DATASET_EXTRA), dso & 63 == 0]
     DSI = [z3.Function('DSI%d' % k, z3.BitVecSort(64), z3.BitVecSort(64)) for k in range(8)]
     src_ = open(os.path.join(build.REPO, 'src', 'jit_compiler_rv64.cpp')).read()
@@ -33,6 +33,7 @@ def run_V3(ctx, case):
         it.mem.alloc(len(text) + 64, 'text'); it.mem.objs['text']['addr'] = 0x10000000
         for k, b in enumerate(text): it.mem.objs['text']['bytes'][k] = b
         it.extern = {nm: Ptr('text', off) for nm, off in syms.items()}
+        it.mem.alloc(4096, 'lut_enc'); it.mem.alloc(4096, 'lut_dec'); it.extern['randomx_aes_lut_enc'] = Ptr('lut_enc', 0); it.extern['randomx_aes_lut_dec'] = Ptr('lut_dec', 0)
         life.run_ctors(it, mod)
         def alloc_pages(s_, a):
             n = a[0] if is_c(a[0]) else z3.simplify(a[0]).as_long(); return s_.mem.alloc(n, 'codebuf')
@@ -42,7 +43,7 @@ def run_V3(ctx, case):
         J = it.mem.alloc(tj.size(), 'J')
         for k in range(0, tj.size() - tj.size() % 8, 8): it.mem.store(Ptr('J', k), 0, 8)
         it.call('_ZN7randomx15JitCompilerRV64C2Ev', [J]); code = it.mem.load(Ptr('J', oj[0] + L['code']), 8)
-        flags = F['JIT'] | (0 if light else F['FULL_MEM']); it.mem.store(Ptr('J', oj[1]), flags, 4)
+        flags = F['JIT'] | (0 if light else F['FULL_MEM']) | (F['V2'] if v2 else 0); it.mem.store(Ptr('J', oj[1]), flags, 4)
         ncalls = [0]
         for f in mod.funcs:
             if re.match(r'_ZN7randomxL\d+h_\w+ERNS_13CompilerStateE', f): it.hooks[f] = (lambda s, a: ncalls.__setitem__(0, ncalls[0] + 1))
@@ -56,6 +57,7 @@ def run_V3(ctx, case):
             q.n += 1; q.unsat += bool(c); q.sat += (not c)
             if not c: q.failed.append(('%s: %s' % (tag, what), {}))
         chk(ncalls[0] in (256, 384), 'an emitter is called for every instruction of the program (%d calls)' % ncalls[0])
+        ENDPOS = concretize(it, it.mem.load(Ptr('J', oj[0] + L['codePos']), 4), 'end of the generated code'); SOFT_ENC = ENDPOS - sz('randomx_riscv64_softaes', 'randomx_riscv64_program_end'); SOFT_DEC = SOFT_ENC + sz('softaes_enc', 'softaes_dec')
         mem = it.mem; CODE = code.obj
         mem.mkarr('sp', P.L3); S0 = mem.objs['sp']['arr']; mem.mkarr('dataset', P.DATASET_BASE + P.DATASET_EXTRA); D0 = mem.objs['dataset']['arr']; mem.share('dataset'); mem.alloc(64, 'cachemem'); mem.share('cachemem')
         mem.alloc(256, 'regfile'); A = [[z3.BitVec('a%d_%d' % (i, l), 64) for l in range(2)] for i in range(4)]
@@ -132,14 +134,25 @@ def run_V3(ctx, case):
             ra = mach.x[1]
             if not (isinstance(ra, Ptr) and ra.obj == mach.code and is_c(ra.off)): raise Fault('SuperscalarHash routine: bad return address')
             mach.pc = ra.off
+        nsoft = [0]
+        def soft_round(mach, enc):      # contract of the software-AES round routines (V4): (t5,t6) := round((t5,t6), key (s0,a0)); the literal pool must hold the table pointers; clobbers x8-x15
+            lp = [mach.mem.load(Ptr(CODE, POOL + (syms['randomx_riscv64_literals_end'] - syms['randomx_riscv64_literals']) + 16 + 8 * k), 8) for k in range(2)]
+            if not (isinstance(lp[0], Ptr) and lp[0].obj == 'lut_enc' and lp[0].off == 2048 and isinstance(lp[1], Ptr) and lp[1].obj == 'lut_dec' and lp[1].off == 2048): raise Fault('software AES routine called without the table pointers in the literal pool')
+            if not (isinstance(mach.x[3], Ptr) and mach.x[3].obj == CODE and mach.x[3].off == POOL): raise Fault('software AES routine called with a wrong literal-pool pointer')
+            mach.x[30], mach.x[31] = spec_aes(enc, [mach.x[30], mach.x[31]], [mach.x[8], mach.x[10]]); nsoft[0] += 1
+            for r_ in range(8, 16): mach.x[r_] = z3.BitVec('x%d_clobbered_by_softaes_%d' % (r_, nsoft[0]), 64)
+            ra = mach.x[1]
+            if not (isinstance(ra, Ptr) and ra.obj == mach.code and is_c(ra.off)): raise Fault('software AES routine: bad return address')
+            mach.pc = ra.off
         kind = None
         try:
             m.pc = LOOPTOP; steps = 0; del m.accesses[:]
             while True:
                 if m.pc == PROG and 'pre' not in st: program(m)
                 if light and m.pc == SSH: ssh_routine(m); continue
+                if v2 and m.pc in (SOFT_ENC, SOFT_DEC): soft_round(m, m.pc == SOFT_ENC); continue
                 rr_ = m.step(); steps += 1
-                if steps > 900: raise Fault('step bound exceeded (unwinding assertion)')
+                if steps > 1500: raise Fault('step bound exceeded (unwinding assertion)')
                 if rr_ is None: pass
                 elif rr_[0] == 'ret': kind = 'ret'; retv = rr_[1]; break
                 elif rr_[0] == 'jmp':
@@ -154,6 +167,7 @@ def run_V3(ctx, case):
             chk(False, 'loop body does not execute: %s (pc %#x)' % (e, m.pc)); return
         npaths[0] += 1; pc = fk['pc']; phase_seen.add(kind)
         if 'pre' not in st: chk(False, 'program area not reached'); return
+        if v2: chk(nsoft[0] == 16, 'v2: sixteen software-AES rounds in the F/E mix (%d)' % nsoft[0])
         # ---- steps 1-3
         r1 = [R0[i] ^ ld(S0, z64(A0) + 8 * i) for i in range(8)]
         for i in range(8): q.prove_eq(pc, st['pre']['r'][i], r1[i], '%s: step 2: r%d ^= scratchpad[spAddr0 + %d]' % (tag, i, 8 * i), 64)
@@ -166,7 +180,7 @@ def run_V3(ctx, case):
         for k in range(4): q.prove_eq(pc, st['pre']['rcp'][k], mem.load(Ptr(CODE, POOL + 144 + 8 * k), 8), '%s: x%d = reciprocal literal %d at program start (V1 assumption)' % (tag, 28 + k, k), 64)
         # ---- steps 5-8 (v1)
         r2, f2, e2 = st['r2'], st['f2'], st['e2']
-        mpn = z3.Extract(31, 0, r2[rr[2]] ^ r2[rr[3]]); mp_new = mx ^ mpn; new_ma = mp_new; new_mx = ma
+        mpn = z3.Extract(31, 0, r2[rr[2]] ^ r2[rr[3]]); mp_new = (ma ^ mpn) if v2 else (mx ^ mpn); new_ma = mx if v2 else mp_new; new_mx = mp_new if v2 else ma
         if light:
             chk('item' in ssh, 'light mode: the SuperscalarHash routine is called')
             if 'item' not in ssh: return
@@ -175,13 +189,16 @@ def run_V3(ctx, case):
             dsw = [DSI[k](z3.LShR(dso + z64(ma & DM), 6)) for k in range(8)]
         else: dsw = [ld(D0, dso + z64(ma & DM) + 8 * k) for k in range(8)]
         r3 = [r2[i] ^ dsw[i] for i in range(8)]
-        fnew = [[f2[i][0] ^ e2[i][0], f2[i][1] ^ e2[i][1]] for i in range(4)]
+        if v2:
+            fnew = [list(f2[i]) for i in range(4)]
+            for i in range(4): fnew = [spec_aes(True, fnew[0], e2[i]), spec_aes(False, fnew[1], e2[i]), spec_aes(True, fnew[2], e2[i]), spec_aes(False, fnew[3], e2[i])]
+        else: fnew = [[f2[i][0] ^ e2[i][0], f2[i][1] ^ e2[i][1]] for i in range(4)]
         exp = st['sp2']
         for i in range(8):
             for k in range(8): exp = z3.Store(exp, z64(A1) + 8 * i + k, z3.Extract(8 * k + 7, 8 * k, r3[i]))
         for i in range(4):
             for l in range(2):
-                for k in range(8): exp = z3.Store(exp, z64(A0) + 16 * i + 8 * l + k, z3.Extract(8 * k + 7, 8 * k, fnew[i][l]))
+                for k in range(8): exp = z3.Store(exp, z64(A0) + 16 * i + 8 * l + k, z3.Extract(8 * k + 7, 8 * k, bv(fnew[i][l], 64)))
         q.prove_array_eq(pc, mem.objs['sp']['arr'], exp, '%s: steps 9-11: whole scratchpad after the iteration' % tag)
         if kind == 'backedge':      # (on the exit path the epilogue has already restored the caller's callee-saved FP registers; the values are checked in the register file)
             for i in range(4):
@@ -229,15 +246,15 @@ def run_V3(ctx, case):
     if not ok: q.failed.append((tag + ': loop-body extraction reached %s (expected back edge and return)' % sorted(phase_seen), {}))
     return result('V3', tag, q, paths=npaths[0], detail='%d paths: %s' % (npaths[0], sorted(phase_seen)))
 
-def jobs_V3(ctx): return [dict(rr=r, light=l) for l in (False, True) for r in ((0, 15, 5) if ctx['tier'] == 'quick' else range(16))]
+def jobs_V3(ctx): return [dict(rr=r, light=l, v2=v) for v in (False, True) for l in (False, True) for r in (((0, 15, 5) if not v else (0, 10)) if ctx['tier'] == 'quick' else range(16))]
 
 LEMMAS = {'V3': dict(jobs=jobs_V3, run=run_V3, units=['rv64'], rv64=True,
     functions=['JitCompilerRV64::JitCompilerRV64', 'generateProgram / emitProgramPrefix / emitProgramSuffix / emitJump (stitching and patch points)', 'assembled runtime: randomx_riscv64_prologue, loop_begin, data_read (+v2 tweak slot), spad_store, loop_end, epilogue'],
-    doc='the frame the real generator stitches around the program, executed under the RV64 model: the prologue establishes 4.6.1 and the register conventions V1 assumes (masks, literal pool pointer, reciprocal registers, rounding-mode table); one iteration from an arbitrary loop state == spec 4.6.2 (same oracle as I8/J3/N3) for v1 in full and in light mode (the SuperscalarHash routine is an abstract call with the contract V5 proves); exit writes the register file, restores callee-saved registers and sp and returns; dataset accesses in bounds',
+    doc='the frame the real generator stitches around the program, executed under the RV64 model: the prologue establishes 4.6.1 and the register conventions V1 assumes (masks, literal pool pointer, reciprocal registers, rounding-mode table); one iteration from an arbitrary loop state == spec 4.6.2 (same oracle as I8/J3/N3) for v1 and v2 (software-AES F/E mix, the round routines being abstract calls with the contract V4 proves) in full and in light mode (the SuperscalarHash routine is an abstract call with the contract V5 proves); exit writes the register file, restores callee-saved registers and sp and returns; dataset accesses in bounds',
     bound='one loop iteration from an arbitrary state + entry + exit; program body abstracted (arbitrary effect on r/f/e, scratchpad, x8, x9, f24, f25, frm: what V1 allows an instruction to do); readReg choices {0,15,5} (quick) / all 16',
     symbolic='registers, scratchpad, dataset, ma/mx, E masks, datasetOffset, iteration counter, callee-saved registers, stack content, frm',
     stubs=['h_* emitters := no bytes (V1)', 'allocMemoryPages := fresh buffer; Cpu::hasRVV := false (scalar back-end)', 'RV64 semantics: engine/rv64sem.py', 'ld.lld resolves the pc-relative references of the runtime'],
-    outside='v2 (software-AES F/E mix with table lookups), the vector back-end')}
+    outside='the vector back-end')}
 UNITS = UNITS
 
 # ------------------------------------------------------------------------------------------------ V6: randomx_riscv64_data_init (the loop around the SuperscalarHash routine)
@@ -323,3 +340,63 @@ def run_V6(ctx, case):
 LEMMAS['V6'] = dict(jobs=lambda ctx: ['data_init'], run=run_V6, units=['rv64'], rv64=True, functions=['JitCompilerRV64::JitCompilerRV64 (placement, call patch via emitJump)', 'assembled runtime: randomx_riscv64_data_init'],
     doc='the dataset initialiser of the scalar RISC-V runtime as the constructor places and patches it: one call of the SuperscalarHash routine per item of [startItem, endItem) with the right item number, cache and literal-pool pointers; x8-x15 stored at dataset + 64*(item - startItem); exactly the requested bytes written; callee-saved registers and sp restored',
     bound='1 to 3 items (loop body identical for every item), symbolic start and dataset address', symbolic='startItem, itemCount, dataset offset, entry registers, stack content', stubs=['SuperscalarHash routine := abstract call with the contract V5 proves'])
+
+# ------------------------------------------------------------------------------------------------ V4: the software-AES round routines of the runtime
+def _b2l(bs):
+    def cat(b8):
+        if all(is_c(b) for b in b8): return sum(b << (8 * k) for k, b in enumerate(b8))
+        return z3.simplify(z3.Concat(*[bv(b, 8) for b in reversed(b8)]))
+    return [cat(bs[:8]), cat(bs[8:])]
+def _l2b(v):
+    out = []
+    for l in range(2):
+        for k in range(8): out.append(((v[l] >> (8 * k)) & 0xff) if is_c(v[l]) else z3.Extract(8 * k + 7, 8 * k, v[l]))
+    return out
+def spec_aes(enc, st2, key2):
+    from spec import aes_ref
+    return _b2l((aes_ref.aesenc if enc else aes_ref.aesdec)(_l2b(st2), _l2b(key2)))
+
+def run_V4(ctx, case):
+    """softaes_enc / softaes_dec of jit_compiler_rv64_static.S under the RV64 model: (t5,t6) := one FIPS-197 (inverse) round of the state (t5,t6) with round key (s0,a0);
+    table loads summarised by A1 over the S-box as an uninterpreted function; the table pointer comes from the literal-pool slot the emitter fills"""
+    from lemmas import aes as AES
+    from spec import aes_ref
+    inv = case == 'dec'; q = Q(60); syms, text = rv64_linked(ctx['tag'] + '-v4-%d' % os.getpid())
+    modA = Module(ctx['ll']['soft_aes']); it0 = Interp(modA); tn = 'randomx_aes_lut_dec' if inv else 'randomx_aes_lut_enc'
+    forms = AES.table_forms(Q(60), AES.table_from_ir(it0, tn), inv, tn)
+    if any(c is None for r in forms for c in r):
+        q.failed.append(('table form (A1) does not hold', {})); q.sat += 1; q.n += 1; return result('V4', case, q, paths=1)
+    a = syms['softaes_dec' if inv else 'softaes_enc']
+    mem = Mem(); mem.alloc(len(text), 'code')
+    for k, b in enumerate(text): mem.objs['code']['bytes'][k] = b
+    mem.alloc(4096, 'lut'); mem.symload['lut'] = AES.lut_handler(None, q, tn, forms, inv); mem.alloc(4096, 'otherlut')
+    LITN = syms['randomx_riscv64_literals_end'] - syms['randomx_riscv64_literals']        # emitProgramPrefix: eMask at +sizeLiterals, then &lut_enc[2][0], &lut_dec[2][0]
+    mem.alloc(4096, 'pool'); mem.store(Ptr('pool', 2048 + LITN + 16), Ptr('otherlut' if inv else 'lut', 2048), 8); mem.store(Ptr('pool', 2048 + LITN + 24), Ptr('lut' if inv else 'otherlut', 2048), 8)
+    m = Machine(mem, 'code'); entry = {r: z3.BitVec('x%d_entry' % r, 64) for r in range(1, 32)}
+    for r in range(1, 32): m.x[r] = entry[r]
+    for r in range(32): m.f[r] = z3.BitVec('f%d_entry' % r, 64)
+    st = [z3.BitVec('st%d' % i, 64) for i in range(2)]; ky = [z3.BitVec('key%d' % i, 64) for i in range(2)]
+    m.x[30], m.x[31] = st; m.x[8], m.x[10] = ky; m.x[3] = Ptr('pool', 2048); m.x[1] = Ptr('caller', 0); m.x[2] = Ptr('stack', 0); m.frm = z3.BitVec('frm', 3)
+    try: r = m.run(a, max_steps=300)
+    except (Fault, OOB) as e:
+        q.n += 1; q.sat += 1; q.failed.append(('softaes_%s does not execute: %s' % (case, e), {})); return result('V4', case, q, paths=1)
+    ok = r[0] == 'ret' and isinstance(r[1], Ptr) and r[1].obj == 'caller'; q.n += 1; q.unsat += ok; q.sat += (not ok)
+    if not ok: q.failed.append(('routine does not return to its caller', {}))
+    got = _l2b([m.x[30], m.x[31]]); exp = (aes_ref.aesdec if inv else aes_ref.aesenc)(_l2b(st), _l2b(ky))
+    for i in range(16):
+        g = z3.simplify(bv(got[i], 8) != bv(exp[i], 8))
+        if z3.is_false(g): q.n += 1; q.unsat += 1
+        else: q.check([], g, 'softaes_%s (RV64 assembly): state byte %d == FIPS-197 %sround' % (case, i, 'inverse ' if inv else ''))
+    bad = sorted(XN[x] for x in m.written_x if x not in (8, 9, 10, 11, 12, 13, 14, 15, 30, 31)); q.n += 1; q.unsat += (not bad); q.sat += bool(bad)
+    if bad: q.failed.append(('routine clobbers %s beyond x8-x15 (reloaded by the caller) and the state registers' % bad, {}))
+    for (kd, obj, off, nb) in m.accesses:
+        if obj not in ('lut', 'otherlut', 'code', 'pool'): q.n += 1; q.sat += 1; q.failed.append(('access to %s' % obj, {}))
+        if obj == 'otherlut': q.n += 1; q.sat += 1; q.failed.append(('routine reads the table of the other direction', {}))
+    extent_checks(q, [], mem, 'softaes_%s' % case)
+    return result('V4', case, q, paths=1, detail='%d RV64 instructions' % len(m.disasm))
+
+from lemmas.aes import UNITS as _AESU
+UNITS = dict(UNITS); UNITS['soft_aes'] = _AESU['soft_aes']
+LEMMAS['V4'] = dict(jobs=lambda ctx: ['enc', 'dec'], run=run_V4, units=['soft_aes'], rv64=True, functions=['assembled runtime: softaes_enc, softaes_dec', 'randomx_aes_lut_enc/dec (tables, via A1)'],
+    doc='the software-AES round routines of the RISC-V runtime: (t5,t6) := FIPS-197 round / inverse round of (t5,t6) with round key (s0,a0) (AESENC / AESDEC data flow); they read only their own table through the literal-pool pointer, clobber only x8-x15',
+    bound='all 2^256 (state, key) pairs per routine', symbolic='state, key, all registers', stubs=['table loads := columns c*S(x) of the S-box (justified by A1 on the real tables of the current tree)'])
